@@ -175,12 +175,19 @@ def trace_leg(pid, tier, seed, corpus_name, decls, declfile, modes, budget, prof
         if not stats["runs"]:
             st["binding_demo"] = binding_demo(shards[0], declfile)
         stats["runs"].append(st)
+        # big accepted traces are not kept (disk): their digest and statistics are
+        try:
+            total = sum(os.path.getsize(x) for x in shards)
+        except OSError:
+            total = 0
         # profile independence (C16): the recorded traces must be byte-identical across profiles
         import hashlib
         h = hashlib.sha256()
         for s in shards:
             h.update(open(s, "rb").read())
         digests[profile] = h.hexdigest()
+        if total > 300_000_000:
+            shutil.rmtree(outdir, ignore_errors=True)
     stats["digests"] = digests
     return stats
 
@@ -480,7 +487,7 @@ def c02(pid, tier, seed, t0):
     rnd = sub(gen_random(tier, seed, "overlap", "c02", 60, 600), lambda d, f: contiguous(d, f) and f["access"] != "r")
     decls = copyd(star) + copyd(model) + copyd(rnd) + (tall_chunks() if tier == "thorough" else [])
     declfile = save_decls("C02", decls)
-    legs = [trace_leg(pid, tier, seed, "star+model+rand", decls, declfile, "write,table", q(tier, 1, 4), crate="rt-c02")]
+    legs = [trace_leg(pid, tier, seed, "star+model+rand", decls, declfile, "write,table", q(tier, 1, 2), crate="rt-c02")]
     PROOFS["C02"] = tlaps_leg(["Frame", "RoundTrip"])
     sym(pid, decls + (tall_chunks(lambda d, f: d["n"] <= 33) if tier == "quick" else []), ops=("with", "set"))
     finish(pid, tier, seed, t0, mc, legs,
